@@ -84,7 +84,7 @@ func (p *Prog) verifyFunc(fi *FuncInfo, spec *FuncSpec, degraded bool, unroll ..
 	vc := &VC{p: p, u: p.u, fi: fi, spec: spec, curProp: p.curProp, info: fi.Pkg.TypesInfo, pkg: fi.Pkg.Types,
 		declSeen: map[string]bool{}, heap0: map[string]Term{}, heapSort: map[string]string{}, heapElemT: map[string]types.Type{},
 		counters: map[string]int{}, params: map[string]types.Object{}, paramTerm: map[string]Term{},
-		closures: map[string]*funcVal{}, litResults: map[*ast.FuncLit][]*types.Var{}, odSeen: map[string]bool{}, usedLoops: map[int]bool{}, usedSpecs: map[string]bool{}, usedAnchors: map[string]bool{}, lazyHeaps: map[string]Term{}, havocKnown: map[string]map[string]bool{}}
+		closures: map[string]*funcVal{}, litResults: map[*ast.FuncLit][]*types.Var{}, odSeen: map[string]bool{}, callCovered: map[string]bool{}, usedLoops: map[int]bool{}, usedSpecs: map[string]bool{}, usedAnchors: map[string]bool{}, lazyHeaps: map[string]Term{}, havocKnown: map[string]map[string]bool{}}
 	if len(unroll) > 0 {
 		vc.unroll = unroll[0]
 		p.u.boundedWF = unroll[0] + 1
@@ -294,6 +294,9 @@ func (p *Prog) verifyFunc(fi *FuncInfo, spec *FuncSpec, degraded bool, unroll ..
 		o.Weak = len(vc.abstracted) > 0 || degraded
 		o.Decls = vc.decls
 		o.Facts = append(append([]string(nil), vc.base...), o.Facts...)
+		if o.PreFacts != nil {
+			o.PreFacts = append(append([]string(nil), vc.base...), o.PreFacts...)
+		}
 		o.Inputs = vc.inputs
 	}
 	res.Obls = vc.obls
